@@ -14,6 +14,8 @@ class operators:
                     yield {"op": op, "kind": kind, "la": la, "lb": lb}
         for op in ("neg", "pos", "invert"):
             yield {"op": op, "kind": "unary", "la": 3, "lb": 0}
+        for op in ("add", "mul", "sub", "truediv", "pow"):
+            yield {"op": op, "kind": "scalar-history", "la": 3, "lb": 0}
 
     @staticmethod
     def check(inp):
@@ -22,6 +24,21 @@ class operators:
         f = getattr(operator, "__%s__" % op)
         a = [3, 5, 2, 7][:la]
         b = [1, 2, 3, 2][:lb]
+        if kind == "scalar-history":
+            # the same operation with scalars that are equal (and hash equal) but of different types, one after the other
+            from fractions import Fraction as F
+            data = [F(1, 3), F(5, 2), F(2)]
+            for scalars in ((0.5, F(1, 2)), (F(1, 2), 0.5), (1.0, 1, True), (1, 1.0), (2, F(2), 2.0)):
+                for c in scalars:
+                    for side in ("right", "left"):
+                        try:
+                            exp = [f(x, c) if side == "right" else f(c, x) for x in data]
+                        except Exception:
+                            continue
+                        r = outcome(lambda: list(f(Stream(data), c) if side == "right" else f(c, Stream(data))))
+                        if r[0] != "ok" or len(r[1]) != len(exp) or any(type(a) is not type(b) or a != b for a, b in zip(r[1], exp)):
+                            return "%s with the scalar %r (%s) on the %s after equal scalars of other types: %r, property says %r" % (op, c, type(c).__name__, side, r, exp)
+            return None
         if kind == "unary":
             r = outcome(lambda: list(f(Stream(a))))
             exp = ("ok", [f(x) for x in a])
